@@ -200,6 +200,13 @@ func (env *CEnv) ident(name string) cval {
 		return v
 	}
 	switch name {
+	case "secrets_clean":
+		// C17 information-flow rule over this path (see secretsClean)
+		ok, why := secretsClean(env)
+		if !ok {
+			env.st.Note("secret flow: %s", why)
+		}
+		return cval{V: BoolLit(ok)}
 	case "result":
 		if env.panicky {
 			cfail("result on a panicking path")
@@ -989,3 +996,113 @@ const offsiteRegex = `(re.++ (re.* (re.range "\u{0}" "\u{20}")) ` +
 	`(re.* (re.union (re.range "a" "z") (re.range "A" "Z") (re.range "0" "9") (str.to_re "+") (str.to_re "-") (str.to_re ".") (str.to_re "\u{9}") (str.to_re "\u{a}") (str.to_re "\u{d}"))) ` +
 	`(str.to_re ":") re.all) ` +
 	`(re.++ (re.union (str.to_re "/") (str.to_re "\u{5c}")) (re.* (re.union (str.to_re "\u{9}") (str.to_re "\u{a}") (str.to_re "\u{d}"))) (re.union (str.to_re "/") (str.to_re "\u{5c}")) re.all)))`
+
+// ---------------------------------------------------------------------------
+// C17: secrets never reach storage or the log in recoverable form.
+//
+// Sources (terms): submitted passwords / tokens / codes / recovery codes
+// (val!GetPassword, val!GetToken, val!GetCode, val!GetRecoveryCode), random
+// bytes (rnd!N) and everything computed from them, generated codes returned by
+// summarised generators, the remember cookie and the session-held secrets.
+// Sanitisers: hash_of (bcrypt / configured hasher) and sha512.
+// Sinks: every string field of a record passed to Save/Create/SaveOAuth2, the
+// arguments of AddRememberToken, every Log message.
+
+func isSecretSource(t *Term, forLog bool) bool {
+	if !t.Sym {
+		return false
+	}
+	op := strings.Trim(t.Op, "|")
+	switch {
+	case op == "val!GetPassword", op == "val!GetToken", op == "val!GetRecoveryCode":
+		return true
+	case op == "val!GetCode":
+		// TOTP / SMS codes: never logged; TOTPLastCode is stored in the clear by
+		// design (replay protection) and is not among the stored secrets of C17
+		return forLog
+	case strings.HasPrefix(op, "rnd!"):
+		return true
+	case strings.HasPrefix(op, "ret.generateRandomCode"), strings.HasPrefix(op, "ret.GenerateRecoveryCodes"), strings.HasPrefix(op, "ret.generateOTP"):
+		return true
+	case op == "cs_get" && len(t.Args) == 2:
+		if k, ok := t.Args[1].StrVal(); ok {
+			switch k {
+			case "rm", "twofactor_auth_token":
+				return true
+			case "sms_secret", "totp_secret":
+				// the TOTP secret must be stored recoverably (the server validates
+				// codes with it): a log-only source
+				return forLog
+			}
+		}
+	case op == "totp_secret_of":
+		return forLog
+	case op == "url_string":
+		// the request URL carries the mailed token on GET routes (confirm,
+		// recover end, 2FA e-mail verification)
+		return forLog
+	}
+	return false
+}
+
+func (ex *Executor) secretIn(t *Term, depth int, forLog bool) *Term {
+	if isSecretSource(t, forLog) {
+		return t
+	}
+	if t.Sym {
+		op := strings.Trim(t.Op, "|")
+		if op == "hash_of" || op == "sha512" || op == "hash_ok" || op == "str.len" {
+			return nil
+		}
+		if def, ok := ex.Defs[t.Op]; ok && depth < 6 {
+			if s := ex.secretIn(def, depth+1, forLog); s != nil {
+				return s
+			}
+		}
+	}
+	if t.Op == "str.len" && !t.Sym {
+		return nil
+	}
+	for _, a := range t.Args {
+		if s := ex.secretIn(a, depth, forLog); s != nil {
+			return s
+		}
+	}
+	return nil
+}
+
+func secretsClean(env *CEnv) (bool, string) {
+	ex := env.ex
+	for _, e := range env.st.Trace {
+		switch {
+		case e.Kind == "Log":
+			for _, a := range e.Args[1:] {
+				if s := ex.secretIn(env.toTerm(a), 0, true); s != nil {
+					return false, fmt.Sprintf("log line at %s contains %s", e.Pos, s)
+				}
+			}
+		case e.Kind == "Store.Save" || e.Kind == "Store.Create" || e.Kind == "Store.SaveOAuth2":
+			u, ok := e.Args[0].(*Term)
+			if !ok {
+				continue
+			}
+			for f, sort := range env.prog.UserFields {
+				if sort != SStr {
+					continue
+				}
+				arr := ex.userHeapGet(env.st, e.Heap, f, sort)
+				if s := ex.secretIn(Select(arr, u), 0, false); s != nil {
+					return false, fmt.Sprintf("record field %s stored at %s contains %s", f, e.Pos, s)
+				}
+			}
+		case e.Kind == "Store.AddRememberToken":
+			// (pid, stored token): the pid is an identifier, the stored token must be a hash
+			for _, a := range e.Args[1:] {
+				if s := ex.secretIn(env.toTerm(a), 0, false); s != nil {
+					return false, fmt.Sprintf("remember token stored at %s contains %s", e.Pos, s)
+				}
+			}
+		}
+	}
+	return true, ""
+}
